@@ -11,7 +11,7 @@ env.setup()
 PROPERTY = "C20"
 LEVEL = "exploration"
 RULE = (
-    "Hypothesis grammar of STRL trees (Objective root; Min / Max / LessThan / Scale / Choose / WindowedChoose / Allocation, nesting as the Python "
+    "Hypothesis grammar of STRL trees (Objective root; Min / Max / LessThan / Scale / Choose / WindowedChoose / MalleableChoose / Allocation, nesting as the Python "
     "front-end builds them plus irregular shapes, occasional shared sub-expressions; <= 7 Choose leaves, 1-3 partitions of quantity 1-3, "
     "start times before / at / after `now`, durations 1-4) lowered by the repository's C++ code (built by the harness with a sequential "
     "TBB shim); the dumped MILP is rebuilt as GurobiSolver.cpp would and up to 30 solutions (solution pool, zero objective) plus the "
@@ -22,7 +22,9 @@ RULE = (
 ASSUMPTIONS = [
     "the model is solved with gurobipy after a translation that mirrors GurobiSolver.cpp (missing lower bound 0, indicator = binary)",
     "WindowedChoose is generated with first and last start slot on its own grid, as the Python front-end passes them (off-grid windows are "
-    "rounded inconsistently by the constructor and the Max parent; what an off-grid window means is not documented); MalleableChoose is not generated",
+    "rounded inconsistently by the constructor and the Max parent; what an off-grid window means is not documented)",
+    "MalleableChoose: reference = any split of the requested resource-time over (partition, slot) cells of its window, each cell occupying one "
+    "granularity; start = first occupied slot, end = end of the last occupied slot",
     "windowed trees have no shared sub-expressions (a shared child of a LessThan that a pass prunes is satisfiable only with the pass)",
     "LessThan over two fixed-time leaves is independent of their satisfaction (as documented in Expression.cpp)",
 ]
@@ -34,7 +36,7 @@ def prepare_parent():
 
 # ----------------------------------------------------------------------------- generator
 @st.composite
-def trees(draw, gran=1, passes=None, irregular=False, windowed=False):
+def trees(draw, gran=1, passes=None, irregular=False, windowed=False, malleable=False):
     n_parts = draw(st.integers(1, 3))
     partitions = [{"id": i + 1, "q": draw(st.integers(1, 3))} for i in range(n_parts)]
     now = draw(st.integers(0, 3))
@@ -44,7 +46,7 @@ def trees(draw, gran=1, passes=None, irregular=False, windowed=False):
         nodes.append(n)
         return len(nodes) - 1
 
-    n_tasks = draw(st.integers(1, 3 if windowed else 4))
+    n_tasks = draw(st.integers(1, 3 if (windowed or malleable) else 4))
     tasks = []
     leaves = 0
     for t in range(n_tasks):
@@ -65,6 +67,14 @@ def trees(draw, gran=1, passes=None, irregular=False, windowed=False):
             leaves += 2
             if draw(st.booleans()):
                 leaf = add({"kind": "MAX", "name": f"max{t}", "children": [leaf]})
+            tasks.append(leaf)
+            continue
+        if malleable and draw(st.integers(0, 2)) == 0:
+            wg = gran if gran > 1 else draw(st.sampled_from([1, 1, 2]))
+            m_start = -(-max(now, base) // wg) * wg
+            leaf = add({"kind": "MALLEABLE", "name": f"t{t}", "parts": parts[:2], "slots": draw(st.integers(1, 3)), "start": m_start,
+                        "end": m_start + wg * draw(st.integers(1, 3)), "wgran": wg, "utility": utility})
+            leaves += 3
             tasks.append(leaf)
             continue
         chooses = []
@@ -103,7 +113,7 @@ def trees(draw, gran=1, passes=None, irregular=False, windowed=False):
             lt = add({"kind": "LESSTHAN", "name": f"lt{gi}", "children": [a, b]})
             groups.append(add({"kind": "MIN", "name": f"min{gi}", "children": [lt]}))
         gi += 1
-    if not windowed and draw(st.integers(0, 4)) == 0 and len(tasks) >= 2:
+    if not windowed and not malleable and draw(st.integers(0, 4)) == 0 and len(tasks) >= 2:
         # a shared sub-expression: one task referenced by a second parent
         shared = draw(st.sampled_from(tasks))
         other = draw(st.sampled_from([t for t in tasks if t != shared]))
@@ -164,6 +174,22 @@ def leaf_decisions(case, dump, val):
                 dec[("ghost", i, "indicator")] = {"window_indicator": val(wi), "chosen": chosen}
             dec[i] = chosen[0] if chosen else None
             continue
+        if n["kind"] == "MALLEABLE":
+            ind = by_name.get(f"{n['name']}_placed_from_{n['start']}_to_{n['end']}")
+            if ind is None:
+                continue
+            alloc = {}
+            for vname, vid in by_name.items():
+                m_ = re.match(rf"^{re.escape(n['name'])}_using_partition_(\d+)_at_(\d+)$", vname)
+                if m_ and int(round(val(vid))):
+                    alloc[(int(m_.group(1)), int(m_.group(2)))] = int(round(val(vid)))
+            if val(ind) > 0.5:
+                dec[i] = alloc
+            else:
+                dec[i] = None
+                if alloc:
+                    dec[("ghost", i)] = alloc
+            continue
         if n["kind"] != "CHOOSE":
             continue
         ind = by_name.get(f"{n['name']}_placed_at_{n['start']}_for_s{i}")
@@ -205,13 +231,29 @@ def check_solution(case, dump, val, objective, V, label):
                                                     f"start slots {strl.windowed_starts(case, n)}; case={case}", "strl.windowed_choose_amount_or_slot" + wrapped + tag))
                 return False
             continue
+        if a is not None and case["nodes"][i]["kind"] == "MALLEABLE":
+            n = case["nodes"][i]
+            slots = strl.malleable_slots(case, n) or []
+            if sum(a.values()) != n["slots"] or any(t not in slots or pid not in n["parts"] for pid, t in a):
+                V.append(Violation("choose_amount", f"[{label}] MalleableChoose {i} satisfied with {a}, requested resource-time {n['slots']} over slots {slots}; case={case}",
+                                   "strl.malleable_choose_amount_or_slot" + tag))
+                return False
+            continue
         if a is not None and sum(a.values()) != case["nodes"][i]["machines"]:
             V.append(Violation("choose_amount", f"[{label}] Choose {i} satisfied with allocation {a}, demand {case['nodes'][i]['machines']}; case={case}", "strl.choose_amount" + tag))
             return False
     valid, util, why = strl.evaluate(case, dec)
     if not valid:
         kinds = sorted({w.split(" ")[0].lower() for w in why})
-        V.append(Violation("invalid_solution", f"[{label}] the model admits {dec}: {why}; case={case}", "strl.invalid_solution." + "+".join(kinds) + tag))
+        cause = ""
+        if "lessthan" in kinds and any(n["kind"] == "MALLEABLE" for n in case["nodes"]):
+            # is the ordering respected if a MalleableChoose ended at the start of its last slot (F41)?  (The capacity-purge
+            # pass trusts that ordering and drops the capacity constraint of the two "ordered" expressions.)
+            _ok, _u, why2 = strl.evaluate(case, dec, malleable_end_shift=True)
+            left = sorted({w.split(" ")[0].lower() for w in why2})
+            if not left or (left == ["capacity"] and "capacity_purge" in case.get("passes", [])):
+                cause = ".malleable_end_is_start_of_last_slot"
+        V.append(Violation("invalid_solution", f"[{label}] the model admits {dec}: {why}; case={case}", "strl.invalid_solution." + "+".join(kinds) + tag + cause))
         return False
     if abs(util - objective) > 1e-6:
         V.append(Violation("objective_vs_semantics", f"[{label}] model objective {objective} but the decisions {dec} are worth {util}; case={case}", "strl.objective_vs_semantics" + tag))
@@ -228,11 +270,18 @@ def check_solution(case, dump, val, objective, V, label):
         return False
     # placements: backed by satisfied leaves, exact amount, exact window
     sat = {}
+    malleable_gran = {n["name"]: n["wgran"] for n in case["nodes"] if n["kind"] == "MALLEABLE"}
     for i, a in dec.items():
         if a is not None:
             n = case["nodes"][i]
             if n["kind"] == "WINDOWED":
                 sat.setdefault(n["name"], []).append((a[0], a[0] + n["duration"], a[1], n["machines"]))
+                continue
+            if n["kind"] == "MALLEABLE":
+                per = {}
+                for (pid, _t), q in a.items():
+                    per[pid] = per.get(pid, 0) + q
+                sat.setdefault(n["name"], []).append((min(t for _p, t in a), max(t for _p, t in a) + n["wgran"], per, n["slots"]))
                 continue
             sat.setdefault(n["name"], []).append((n["start"], n["start"] + n["duration"], a, n["machines"]))
     for pl in res["placements"]:
@@ -242,9 +291,16 @@ def check_solution(case, dump, val, objective, V, label):
         for pid, t, q in pl["alloc"]:
             got[pid] = got.get(pid, 0) + q
         if not pl["placed"] or not match or all(got != m[2] for m in match):
+            wg = malleable_gran.get(pl["name"])
+            if wg and pl["placed"] and any(c[0] == pl["start"] and c[1] - wg == pl["end"] and got == c[2] for c in cands):
+                # F41: right slots and amounts, but the reported end is the *start* of the last occupied slot; recorded and
+                # the remaining clauses are still checked
+                V.append(Violation("placement_readback", f"[{label}] placement {pl} of a MalleableChoose ends at the start of its last slot; expected {cands}; case={case}",
+                                   "strl.placement_readback.malleable_end_is_start_of_last_slot"))
+                continue
             V.append(Violation("placement_readback", f"[{label}] placement {pl} is not backed by a satisfied Choose {cands}; case={case}", "strl.placement_readback" + tag))
             return False
-    return True
+    return not V
 
 
 def analyse(case, V, res, enumerate_solutions=True):
@@ -320,6 +376,9 @@ def execute(case):
                                               f"(brute-force optimum {best}); case={case}", "strl.model_infeasible" + tag))
     elif not V and abs(info["opt"] - best) > 1e-6:
         cause = infeasibility_cause(case) if info["opt"] < best else ""
+        if not cause and info["opt"] < best and "critical_path" in case.get("passes", []) and any(n["kind"] == "MALLEABLE" for n in case["nodes"]) and any(
+                n["kind"] == "LESSTHAN" for n in case["nodes"]):
+            cause = ".malleable_time_bounds_span_whole_window"
         if not cause and info["opt"] < best and "critical_path" in case.get("passes", []) and any(
                 n["kind"] == "WINDOWED" and n["duration"] % n["wgran"] for n in case["nodes"]):
             cause = ".windowed_end_bound_rounded_up_to_granularity"
@@ -473,4 +532,5 @@ CHECKS = [
     Check("passes_metamorphic", exec_passes, strategy=lambda tier: st.booleans().flatmap(lambda w: trees(passes=[], windowed=w)), budget={"quick": 128, "thorough": 4000}),
     Check("coarse_discretization", exec_coarse, strategy=lambda tier: st.sampled_from([2, 3]).flatmap(lambda g: trees(gran=g, passes=[])), budget={"quick": 128, "thorough": 4000}),
     Check("windowed_trees", execute, strategy=lambda tier: trees(windowed=True), budget={"quick": 320, "thorough": 12000}),
+    Check("malleable_trees", execute, strategy=lambda tier: trees(malleable=True, windowed=True), budget={"quick": 160, "thorough": 6000}),
 ]
